@@ -336,6 +336,7 @@ class BaseSubscription:
         "default_limit",
         "log",
         "auth_token",
+        "closed",
     )
 
     def __init__(
@@ -359,13 +360,24 @@ class BaseSubscription:
         self.default_limit = default_limit
         self.auth_token = auth_token
         self.log = log or storage.log
+        self.closed = False
 
     def prepare(self):
         return True
 
     def cancel(self):
+        """
+        End the subscription: nothing is sent for it any more
+        """
+        self.closed = True
         if self.query_task:
             self.query_task.cancel()
+        # discard what is queued for it and was not sent yet, keeping the rest in order
+        if self.queue is not None:
+            for _ in range(self.queue.qsize()):
+                item = self.queue.get_nowait()
+                if item[0] != self.sub_id:
+                    self.queue.put_nowait(item)
 
     def start(self):
         self.query_task = asyncio.create_task(self.run_query())
@@ -387,7 +399,7 @@ class BaseSubscription:
             matched,
             t.duration * 1000,
         )
-        if matched:
+        if matched and not self.closed:
             await self.queue.put((self.sub_id, event))
 
     def check_event(self, event: Event, filters: list):
